@@ -314,6 +314,26 @@ let () =
           | "mutw" :: r -> bump counts "mutw"; do_mutw r line
           | "ctor" :: r -> bump counts "ctor"; do_ctor r line
           | "appm" :: r -> bump counts "appm"; do_appm r line
+          | "deepsc" :: [kind; n; ok] ->
+              bump counts "deepsc";
+              if ok <> "true" then begin
+                if kind = "lhs-spine" then fail "oracle:C19:deep-accessor" ("consuming accessor fails on a spine of " ^ n ^ " applications (512 KiB stack)") line
+                else fail "oracle:C18:deep-predicate" ("is_supercombinator fails on a term " ^ n ^ " binders deep (512 KiB stack)") line
+              end;
+              note_nontrivial ("deepsc" ^ kind ^ n)
+          | "apporder" :: [n; expected; got] ->
+              bump counts "apporder";
+              if expected <> got then fail "oracle:C19:app-macro-order" "app! does not apply its operands left to right" line;
+              note_nontrivial ("apporder" ^ n)
+          | "biglimit" :: [o; lim; _; _; ok] ->
+              bump counts "biglimit";
+              if ok <> "true" then fail "oracle:C04:huge-limit" ("a limit of " ^ lim ^ " that is never reached changes the result") line;
+              note_nontrivial ("biglimit" ^ o ^ lim)
+          | "longrun" :: [o; n; c0; sum; same] ->
+              bump counts "longrun";
+              if c0 <> n || sum <> n || same <> "true" then
+                fail "oracle:C04:long-run" ("a run of " ^ n ^ " contractions: unlimited call counted " ^ c0 ^ ", chunked calls " ^ sum) line;
+              note_nontrivial ("longrun" ^ o)
           | "absm" :: r -> bump counts "absm"; do_absm r line
           | "meta-orders" :: [_; input; n; agree; _] ->
               bump counts "meta-orders";
